@@ -60,7 +60,7 @@ Proof. vm_compute. split; reflexivity. Qed.
 (* ---- tie to the current source (translator): the order of the steps of CopyHandle::new — in particular the
    same-file check (23) and the dangling-link check (26: lstat of a destination the probe called absent) come after
    the probe of the destination (22) and BEFORE the first mutating step (rename 1, create+truncate 2, size 3) ---- *)
-Theorem C03_src_copy_new_order : x_copy_new_steps = [20; 21; 22; 23; 98; 26; 98; 27; 97; 24; 25; 1; 2; 28; 3]%N.
+Theorem C03_src_copy_new_order : x_copy_new_steps = [20; 21; 22; 23; 98; 26; 98; 26; 29; 98; 27; 97; 24; 25; 1; 2; 28; 3]%N.
 Proof. exact x_copy_new_steps_ok. Qed.
 
 (* ---- the glue functions this property's hand-written model mirrors are, token for token, the ones it was
